@@ -95,13 +95,20 @@ def run(ctx):
         sets = argsets.generic(n, ctx.seed, ctx.pick(400, 4000))
         # texts that the text-handling helpers treat specially (wildcards, escapes, operator prefixes, error values): every
         # pair of them in the first two positions, the remaining positions None
-        special = ['a*b', 'a~*b', '~?', 'a?b', '~~', '~~?', '=5', '<>x', '>3', 'TRUE', '', 'x', 'A', '#N/A', 5, 0, 2.5, None, True]
+        special = ['a~bc', '~.x', 'a~', '~a', 'a~b', 'xa~bcx', 'a*b', 'a~*b', '~?', 'a?b', '~~', '~~?', '=5', '<>x', '>3', 'TRUE', '', 'x', 'A', '#N/A', 5, 0, 2.5, None, True]
         if n >= 2:
             sets = [[a, b_] + [None] * (n - 2) for a in special for b_ in special] + sets
         elif n == 1:
             sets = [[a] for a in special] + sets
         if name == '_regexp':
             sets = [[p] for p in ['a?', 'a??b', '*x', 'a~?b', 'a~*', '[a]', 'plain', '', '?', 'x*y?z', '~~?']] + sets
+            # every pattern of length <= 4 over the wildcard / escape / regexp-special alphabet (an escape rule that differs
+            # between the copies needs '~' next to one particular kind of character)
+            import itertools
+            sets = [[''.join(t)] for k in range(1, 5) for t in itertools.product('ab~?*.[', repeat=k)] + sets
+        if name == '_search':
+            texts = [x for x in special if isinstance(x, str)]
+            sets = [[a, b_, 1] + [None] * (n - 3) for a in texts for b_ in texts] + sets
         r = native.call('basic', 'call_both', name=name, argsets=sets)
         nontriv = 0
         for args, x, y in zip(sets, r['runtime'], r['abstract']):
